@@ -12,7 +12,12 @@ import "time"
 // vhLean makes the fields that cannot influence membership concrete (status Up,
 // equal epochs/timestamps/protocol versions) so that jobs about membership
 // algebra do not fork on them; the core job keeps them symbolic.
-var vhLean, vhStatusAlt, vhLeanEpoch bool
+var vhLean, vhLeanEpoch bool
+
+// vhStatusAlt: 0 every member Up; 1 the first id Suspect, the others Up; 2 the
+// second id Suspect, the others Up (one choice per run: the status only feeds
+// the healthy/unhealthy counters and the version-vector pruning)
+var vhStatusAlt int
 
 func vhMember(id string) *NodeState {
 	g := vrtInt32()
@@ -22,7 +27,7 @@ func vhMember(id string) *NodeState {
 	// the status only feeds the healthy/unhealthy counters, which the
 	// property does not mention: one choice per run instead of a symbolic value
 	st := MemberStatusUp
-	if !vhLean && vhStatusAlt {
+	if !vhLean && ((vhStatusAlt == 1 && id == vhIDs[0]) || (vhStatusAlt == 2 && id == vhIDs[1])) {
 		st = MemberStatusSuspect
 	}
 	return &NodeState{ID: id, ClusterName: "c", Address: "addr-" + id, Generation: int(g), LogicalClock: lc,
@@ -106,7 +111,7 @@ func vhOpts() MergeOptions {
 // VH_C17_merge_pair: union, newest incarnation, no regression, monotone epoch
 // and member version-vector entries, changed flag, idempotence, commutativity.
 func VH_C17_merge_pair() {
-	vhStatusAlt = vrtChoose(2) == 1
+	vhStatusAlt = vrtChoose(3)
 	k := vrtParam("ids", 2)
 	// mode 0: membership dimension (epochs/timestamps/protocol concrete and
 	// equal, no clock-skew option); mode 1: epoch dimension (symbolic epochs,
